@@ -1,0 +1,9 @@
+//go:build verif
+
+package css
+
+// VerifRecursiveCheck exposes recursiveCheck to the verification harness, which drives it with
+// handler functions of its own that count their invocations.  Read-only: it adds no behaviour.
+func VerifRecursiveCheck(value []string, funcs []func(string) bool) bool {
+	return recursiveCheck(value, funcs)
+}
